@@ -725,3 +725,145 @@ proof fn thm_digests(m: Seq<(Seq<char>, J)>, s: Strat, pm: Seq<(Seq<char>, J)>, 
         }
     }
 }
+
+// ---- clear values: under the strategy `No` a reserved-free value encodes itself, with no disclosures and no digests ----
+proof fn lemma_no_val(j: J, ds: DS, off: int)
+    requires wf_j(j), !has_reserved(j)
+    ensures enc(j, Strat::No, j, ds, off), hcount(j, Strat::No) == 0, occ(j, Strat::No, j, ds, off) == Set::<Dig>::empty(), sep(j, Strat::No, j, ds, off)
+    decreases j, 0nat
+{
+    match j {
+        J::Arr(a) => { lemma_no_arr(a, ds, off, a.len()); }
+        J::Obj(m) => {
+            lemma_no_members(m, ds, off, m.len());
+            lemma_j_has_iff(m, K_SD());
+            if j_has(m, K_SD()) { let q = choose|q: int| 0 <= q < m.len() && #[trigger] m[q].0 == K_SD(); lemma_entries_elem(m, q); }
+            assert(sd_strs(m) == Seq::<J>::empty());
+            assert(obj_members_ok(m, Strat::No, m)) by {
+                assert forall|q: int| 0 <= q < m.len() implies (#[trigger] m[q]).0 == K_SD()
+                    || exists|i: int| 0 <= i < m.len() && #[trigger] m[i].0 == m[q].0 && !sd_spec(Strat::No, m[i].0) by { assert(m[q].0 == m[q].0); }
+            }
+            assert(jstrs(sd_strs(m)) == Set::<Dig>::empty());
+            assert(Set::<Dig>::empty().union(Set::<Dig>::empty()) =~= Set::<Dig>::empty());
+        }
+        _ => {}
+    }
+}
+proof fn lemma_no_arr(a: Seq<J>, ds: DS, off: int, n: nat)
+    requires wf_seq(a), !has_reserved_seq(a), n <= a.len()
+    ensures enc_arr(a, Strat::No, a, ds, off, n), hcount_arr(a, Strat::No, n) == 0, occ_arr(a, Strat::No, a, ds, off, n) == Set::<Dig>::empty(), sep_arr(a, Strat::No, a, ds, off, n)
+    decreases a, n + 1
+{
+    if n > 0 {
+        lemma_no_arr(a, ds, off, (n - 1) as nat);
+        let i = n - 1;
+        lemma_seq_elem(a, i);
+        lemma_no_val(a[i], ds, e_off(a, Strat::No, off, i));
+        assert(enc_elem(a, Strat::No, a, ds, off, i));
+        assert(occ_elem(a, Strat::No, a, ds, off, i) == Set::<Dig>::empty());
+        assert(Set::<Dig>::empty().union(Set::<Dig>::empty()) =~= Set::<Dig>::empty());
+        assert(sep_elem(a, Strat::No, a, ds, off, i));
+    }
+}
+proof fn lemma_no_members(m: Seq<(Seq<char>, J)>, ds: DS, off: int, n: nat)
+    requires wf_entries(m), keys_unique(m), !has_reserved_entries(m), n <= m.len()
+    ensures enc_members(m, Strat::No, m, sd_strs(m), ds, off, n), hcount_members(m, Strat::No, n) == 0,
+        occ_members(m, Strat::No, m, ds, off, n) == Set::<Dig>::empty(), sep_members(m, Strat::No, m, ds, off, n),
+        sd_only(sd_strs(m), m, Strat::No, ds, off, n) || true,
+    decreases m, n + 1
+{
+    if n > 0 {
+        lemma_no_members(m, ds, off, (n - 1) as nat);
+        let i = n - 1;
+        lemma_entries_elem(m, i);
+        lemma_j_get_at(m, i);
+        lemma_no_val(m[i].1, ds, m_off(m, Strat::No, off, i));
+        assert(enc_member(m, Strat::No, m, sd_strs(m), ds, off, i));
+        assert(m_p(m, Strat::No, m, ds, off, i) == m[i].1);
+        assert(occ_member(m, Strat::No, m, ds, off, i) == Set::<Dig>::empty());
+        assert(Set::<Dig>::empty().union(Set::<Dig>::empty()) =~= Set::<Dig>::empty());
+        assert(sep_member(m, Strat::No, m, ds, off, i));
+    }
+}
+
+// ---- extra clear members: the always-visible part of the payload (`_sd_alg`, iss / iat / exp, cnf) ----
+spec fn names(ex: Seq<(Seq<char>, J)>) -> Set<Seq<char>> { ex.map_values(|e: (Seq<char>, J)| e.0).to_set() }
+spec fn masked(s: Strat, ex: Seq<(Seq<char>, J)>) -> Strat { Strat::Masked(Box::new(s), names(ex)) }
+spec fn extras_ok(m: Seq<(Seq<char>, J)>, ex: Seq<(Seq<char>, J)>) -> bool {
+    keys_unique(ex)
+    && (forall|e: int| 0 <= e < ex.len() ==> wf_j((#[trigger] ex[e]).1) && !has_reserved(ex[e].1) && !reserved(ex[e].0))
+    && (forall|e: int, i: int| 0 <= e < ex.len() && 0 <= i < m.len() ==> (#[trigger] ex[e]).0 != (#[trigger] m[i]).0)
+}
+proof fn lemma_names(ex: Seq<(Seq<char>, J)>, k: Seq<char>)
+    ensures names(ex).contains(k) <==> exists|e: int| 0 <= e < ex.len() && (#[trigger] ex[e]).0 == k
+{
+    let ns = ex.map_values(|e: (Seq<char>, J)| e.0);
+    if ns.contains(k) { let e = choose|e: int| 0 <= e < ns.len() && ns[e] == k; assert(ex[e].0 == k); }
+    if exists|e: int| 0 <= e < ex.len() && (#[trigger] ex[e]).0 == k {
+        let e = choose|e: int| 0 <= e < ex.len() && (#[trigger] ex[e]).0 == k;
+        assert(ns[e] == k);
+    }
+}
+proof fn lemma_masked(m: Seq<(Seq<char>, J)>, s: Strat, ex: Seq<(Seq<char>, J)>, i: int)
+    requires extras_ok(m, ex), 0 <= i < m.len() + ex.len()
+    ensures ({ let m2 = m + ex; let s2 = masked(s, ex);
+        if i < m.len() { m2[i] == m[i] && sd_spec(s2, m2[i].0) == sd_spec(s, m[i].0) && next_spec(s2, m2[i].0) == next_spec(s, m[i].0) }
+        else { m2[i] == ex[i - m.len()] && !sd_spec(s2, m2[i].0) && next_spec(s2, m2[i].0) == Strat::No } })
+{
+    let m2 = m + ex;
+    lemma_names(ex, m2[i].0);
+    if i < m.len() {
+        if names(ex).contains(m[i].0) { let e = choose|e: int| 0 <= e < ex.len() && (#[trigger] ex[e]).0 == m[i].0; assert(ex[e].0 != m[i].0); }
+    } else { assert(ex[i - m.len()].0 == m2[i].0); }
+}
+proof fn lemma_hcount_masked(m: Seq<(Seq<char>, J)>, s: Strat, ex: Seq<(Seq<char>, J)>, n: nat)
+    requires extras_ok(m, ex), n <= m.len() + ex.len()
+    ensures hcount_members(m + ex, masked(s, ex), n) == hcount_members(m, s, if n <= m.len() { n } else { m.len() })
+    decreases n
+{
+    if n > 0 {
+        lemma_hcount_masked(m, s, ex, (n - 1) as nat);
+        lemma_masked(m, s, ex, n - 1);
+        if n > m.len() { let e = n - 1 - m.len(); lemma_no_val(ex[e].1, Seq::<SDJWTDisclosure>::empty(), 0); }
+    }
+}
+proof fn lemma_j_get_concat(pm: Seq<(Seq<char>, J)>, ex: Seq<(Seq<char>, J)>, k: Seq<char>)
+    requires j_has(pm, k)
+    ensures j_has(pm + ex, k), j_get(pm + ex, k) == j_get(pm, k)
+    decreases ex.len()
+{
+    if ex.len() == 0 { assert(pm + ex =~= pm); } else {
+        lemma_j_get_concat(pm, ex.drop_last(), k);
+        assert(pm + ex =~= (pm + ex.drop_last()).push(ex.last()));
+        lemma_j_get_push(pm + ex.drop_last(), ex.last(), k);
+    }
+}
+proof fn lemma_unique_concat(m: Seq<(Seq<char>, J)>, s: Strat, pm: Seq<(Seq<char>, J)>, ex: Seq<(Seq<char>, J)>)
+    requires obj_members_ok(m, s, pm), extras_ok(m, ex)
+    ensures keys_unique(pm + ex), j_get(pm + ex, K_SD()) == j_get(pm, K_SD()), sd_strs(pm + ex) == sd_strs(pm),
+        forall|e: int| 0 <= e < ex.len() ==> j_get(pm + ex, (#[trigger] ex[e]).0) == Some(ex[e].1) && j_has(pm + ex, ex[e].0),
+{
+    let t = pm + ex;
+    assert forall|a: int, b: int| 0 <= a < b < t.len() implies t[a].0 != t[b].0 by {
+        if b < pm.len() { assert(pm[a].0 != pm[b].0); }
+        else if a >= pm.len() { assert(ex[a - pm.len()].0 != ex[b - pm.len()].0); }
+        else {
+            let e = b - pm.len();
+            assert(!reserved(ex[e].0));
+            if pm[a].0 != K_SD() {
+                let i = choose|i: int| 0 <= i < m.len() && #[trigger] m[i].0 == pm[a].0 && !sd_spec(s, m[i].0);
+                assert(ex[e].0 != m[i].0);
+            }
+        }
+    }
+    assert forall|e: int| 0 <= e < ex.len() implies j_get(t, (#[trigger] ex[e]).0) == Some(ex[e].1) && j_has(t, ex[e].0) by {
+        lemma_j_get_at(t, pm.len() + e);
+    }
+    lemma_j_has_iff(t, K_SD());
+    lemma_j_has_iff(pm, K_SD());
+    if j_has(pm, K_SD()) { lemma_j_get_concat(pm, ex, K_SD()); }
+    else if j_has(t, K_SD()) {
+        let q = choose|q: int| 0 <= q < t.len() && #[trigger] t[q].0 == K_SD();
+        if q < pm.len() { assert(pm[q].0 == K_SD()); } else { assert(reserved(ex[q - pm.len()].0)); }
+    }
+}
